@@ -150,7 +150,9 @@ fn main() {
         let ssub = key.secret_subkeys[0].key.clone();
         let is_rsa = ki == 0;
         for len in 0..=40usize {
-            for &alg in algs.iter().take(if is_rsa || thorough { algs.len() } else { 4 }) {
+            // (the X25519 / X448 session-key packets carry the cipher octet in the clear, next to a wrapped key of any length:
+            //  every cipher octet for them as well)
+            for &alg in algs.iter().take(if is_rsa || thorough || ki >= 3 { algs.len() } else { 4 }) {
                 let mut plain = cx.rng.bytes(len);
                 if len > 0 { plain[0] = alg; }
                 // now and then a correct checksum, so that the length / algorithm checks are what decides
@@ -170,7 +172,15 @@ fn main() {
                     // (b) as a message
                     if len % 5 == 0 || r.starts_with("PANIC") {
                         let p = if tn == "3" { Pk::V3 { packet_header: PacketHeader::new_fixed(Tag::PublicKeyEncryptedSessionKey, 0), id: sub.legacy_key_id(), pk_algo: sub.algorithm(), values: values.clone() } } else { Pk::V6 { packet_header: PacketHeader::new_fixed(Tag::PublicKeyEncryptedSessionKey, 0), fingerprint: Some(sub.fingerprint()), pk_algo: sub.algorithm(), values: values.clone() } };
-                        if let Ok(body) = p.to_bytes() { let mut m = new_header(1, &body); m.extend(if tn == "3" { &cont_v1 } else { &cont_v2 }); blob(&mut cx, m, &format!("pkesk-message-key{ki}")); }
+                        if let Ok(body) = p.to_bytes() {
+                            let mut m = new_header(1, &body); m.extend(if tn == "3" { &cont_v1 } else { &cont_v2 }); blob(&mut cx, m, &format!("pkesk-message-key{ki}"));
+                            // the containers a recipient may have opted into: GnuPG's OCB packet (20) naming this very cipher, and the
+                            // unprotected legacy packet (9)
+                            if tn == "3" {
+                                let mut m = new_header(1, &body); m.extend(new_header(20, &[&[1u8, alg, 2, 6][..], &cx.rng.bytes(15 + 48)[..]].concat())); blob(&mut cx, m, &format!("pkesk-message-gnupg-aead-key{ki}"));
+                                let mut m = new_header(1, &body); m.extend(new_header(9, &cx.rng.bytes(40))); blob(&mut cx, m, &format!("pkesk-message-sed-key{ki}"));
+                            }
+                        }
                     }
                 }
             }
